@@ -380,6 +380,11 @@ class _Run:
         if self.raised is None:
             # only the final ExitMainLoop alarm
             if how == "raised":
+                from urwid import ExitMainLoop  # noqa: PLC0415
+
+                if isinstance(exc, ExitMainLoop):
+                    self.violate("C13.5", "exit-in-final-alarm-propagated-out-of-run", "")
+                    return
                 if core.raised_in_harness(exc) and not isinstance(exc, (Boom,)):
                     raise core.HarnessError(f"harness exception inside run(): {core.format_exc(exc)}") from exc
                 self.violate("C13.5", f"run-raised-uninjected:{core.exc_signature(exc)}", core.format_exc(exc))
